@@ -3,7 +3,7 @@
    group_activity_coefficients are the terms generated from the source on this run
    (Gen_kernels.v, Gen_wrappers.v).  Theorems over an arbitrary carrier K need no axioms;
    theorems at KR (real exp / ln / x^(3/4)) use the standard library's real numbers. *)
-From V Require Import C16.Model C16.Proofs C16.ProofsR C16.GibbsDuhem C16.ProofsGD.
+From V Require Import C16.Model C16.Proofs C16.ProofsR C16.ProofsIdx C16.ProofsPerm C16.GibbsDuhem C16.ProofsGD.
 From Coquelicot Require Import Coquelicot.
 From Coq Require Import Reals List Permutation Lia.
 From Coq Require Import Lra.
@@ -205,23 +205,62 @@ Theorem C16_perm_equivariant : forall Qs psis gpsis G cs cs', Permutation cs cs'
 Proof. exact gamma_sub_perm. Qed.
 Print Assumptions C16_perm_equivariant.
 
+(* ... through the `index` gather / scatter of the FULL chemical list (members without group data included, fd = None):
+   with the arguments laid out as __new__ does for the list (index = positions of the members with groups), every
+   chemical keeps its coefficient when the list is permuted -- both wrappers, every branch (fewer than two members with
+   groups, zero sub-composition, group path) *)
+Theorem C16_perm_equivariant_full : forall G fs fs' T Qs mask, Permutation fs fs' ->
+  (forall f c, In f fs -> fd f = Some c -> length (cg c) = G) ->
+  (forall inter g0 g0' w w',
+     gamma_modified_UNIFAC KR (map fx fs) T inter g0 mask (a_qs_of fs) (a_rs_of fs) Qs (a_cg_of fs) (a_cQ_of fs)
+                           (index_from 0 fs) = Ok w ->
+     gamma_modified_UNIFAC KR (map fx fs') T inter g0' mask (a_qs_of fs') (a_rs_of fs') Qs (a_cg_of fs') (a_cQ_of fs')
+                           (index_from 0 fs') = Ok w' ->
+     Permutation (combine fs (w_gamma w)) (combine fs' (w_gamma w'))) /\
+  (forall inter g0 g0' w w',
+     gamma_UNIFAC KR (map fx fs) T inter g0 mask (a_qs_of fs) (a_rs_of fs) Qs (a_cg_of fs) (a_cQ_of fs)
+                  (index_from 0 fs) = Ok w ->
+     gamma_UNIFAC KR (map fx fs') T inter g0' mask (a_qs_of fs') (a_rs_of fs') Qs (a_cg_of fs') (a_cQ_of fs')
+                  (index_from 0 fs') = Ok w' ->
+     Permutation (combine fs (w_gamma w)) (combine fs' (w_gamma w'))).
+Proof. exact wrappers_perm. Qed.
+Print Assumptions C16_perm_equivariant_full.
+
+(* ... and under a consistent permutation p of the GROUP columns (Q, group counts, Q-fraction rows, rows and columns of
+   psis and of the masked psis): the set-iteration order of the group ids in __new__ does not matter *)
+Theorem C16_group_column_perm : forall G p, (0 < G)%nat -> Permutation p (seq 0 G) ->
+  forall Qs psis gpsis cs,
+  length Qs = G -> rectangular psis G G -> rectangular gpsis G G ->
+  (forall c, In c cs -> length (cg c) = G /\ length (cQ c) = G) ->
+  gamma_sub_UNIFAC (permL p Qs) (permM p psis) (permM p gpsis) (map (perm_chem p) cs) = gamma_sub_UNIFAC Qs psis gpsis cs /\
+  gamma_sub_modified (permL p Qs) (permM p psis) (permM p gpsis) (map (perm_chem p) cs) = gamma_sub_modified Qs psis gpsis cs.
+Proof. intros G p HG Pp. exact (gamma_sub_column_perm G p HG Pp). Qed.
+Print Assumptions C16_group_column_perm.
+
 (* ------------------------------------------------------------------ pure_limit (whole coefficient) *)
-(* full statement: with the arrays __new__ derives (chem_Qfractions rows, masked psis) and positive
-   group parameters, gamma_i = 1 at x = e_i.  Not proved as such; see C16_pure_limit_partial. *)
+(* full statement: with the arrays __new__ derives from chemgroups and Q (chem_Qfractions rows, group_mask, masked
+   psis), non-negative group parameters and positive psis (psi = exp(..) > 0), gamma_i = 1 at x = e_i for the whole
+   coefficient (combinatorial x residual), original UNIFAC and modified (Dortmund, NIST) kernels *)
 Definition C16_pure_limit_statement : Prop :=
-  forall (Qs : list R) (psis : list (list R)) (G : nat) (cs : list chem) (i : nat),
-  (i < length cs)%nat -> pure_at cs i -> length Qs = G ->
+  forall (G : nat) (Qs : list R) (psis : list (list R)) (cs : list chem) (i : nat),
+  (0 < G)%nat -> length Qs = G -> rectangular psis G G ->
+  (forall k, (k < G)%nat -> 0 <= nth k Qs 0)%R ->
+  (forall m n, (m < G)%nat -> (n < G)%nat -> 0 < ent psis m n)%R ->
   (forall c, In c cs -> length (cg c) = G /\ (forall k, 0 <= nth k (cg c) 0)%R) ->
-  (forall k, (k < G)%nat -> 0 < nth k Qs 0)%R ->
-  (forall k n, (k < G)%nat -> (n < G)%nat -> 0 < nth n (nth k psis []) 0)%R ->
+  (forall c, In c cs -> exists k, (k < G)%nat /\ (0 < nth k Qs 0)%R /\ (0 < nth k (cg c) 0)%R) ->
   map cQ cs = derive_cQfs KR (map cg cs) Qs ->
-  let gpsis := fill_group_psis KR psis (derive_mask KR (map cQ cs) G) in
+  (i < length cs)%nat -> pure_at cs i ->
   let c := nth i cs chem0 in cr c <> 0%R -> cq c <> 0%R ->
+  let gpsis := fill_group_psis KR psis (derive_mask KR (map cQ cs) G) in
   nth i (gamma_sub_UNIFAC Qs psis gpsis cs) 0%R = 1%R /\ nth i (gamma_sub_modified Qs psis gpsis cs) 0%R = 1%R.
 
-(* proved: the limit holds whenever the stored reference term of chemical i is the mixture term at
-   pure i on the groups i contains (the literature's definition of Gamma_k^(i)).  Missing for the full
-   statement: deriving that hypothesis from the construction of chem_Qfractions / group_mask. *)
+Theorem C16_pure_limit : C16_pure_limit_statement.
+Proof. exact gamma_pure_from_new. Qed.
+Print Assumptions C16_pure_limit.
+
+(* the intermediate form: the limit holds whenever the stored reference term of chemical i is the mixture term at
+   pure i on the groups i contains (the literature's definition of Gamma_k^(i)); C16_pure_limit derives that
+   hypothesis from the construction of chem_Qfractions / group_mask *)
 Theorem C16_pure_limit_partial : forall Qs psis gpsis G cs i, (i < length cs)%nat -> pure_at cs i ->
   (forall c, In c cs -> length (cg c) = G) ->
   let c := nth i cs chem0 in cr c <> 0%R -> cq c <> 0%R ->
@@ -246,12 +285,40 @@ Proof.
 Qed.
 Print Assumptions C16_gibbs_duhem_comb_binary.
 
-(* full statement (n chemicals, combinatorial x residual), NOT proved: it is measured on the real
-   objects by the oracle of props/C16.py with central finite differences along e_a - e_b *)
-Definition shift_x (cs : list chem) (a b : nat) (h : R) : list chem :=
-  map (fun jc => let '(j, c) := jc in
-         mkChem (cx c + (if Nat.eqb j a then h else 0) - (if Nat.eqb j b then h else 0))%R
-                (cq c) (cr c) (cg c) (cQ c) (cl c)) (enum cs).
+(* n chemicals, direction e_a - e_b (x_a + h, x_b - h), at any point of the open simplex: the combinatorial part of
+   both translated kernels satisfies sum_i x_i dln(gamma_i^C)/dh = 0 *)
+Theorem C16_gibbs_duhem_comb : forall cs a b, (a < length cs)%nat -> (b < length cs)%nat ->
+  (forall c, In c cs -> 0 < cx c /\ 0 < cr c /\ 0 < cq c)%R ->
+  sum_over cs cx = 1%R ->
+  sum_over (enum cs) (fun ic => cx (snd ic) *
+     Derive (fun h => nth (fst ic) (loggammacs_modified_UNIFAC KR (map cq cs) (map cr cs) (map cx (shift_x cs a b h))) 0) 0)%R = 0%R /\
+  sum_over (enum cs) (fun ic => cx (snd ic) *
+     Derive (fun h => nth (fst ic) (loggammacs_UNIFAC KR (map cq cs) (map cr cs) (map cx (shift_x cs a b h))) 0) 0)%R = 0%R.
+Proof. exact gibbs_duhem_comb_n. Qed.
+Print Assumptions C16_gibbs_duhem_comb.
+
+(* algebraic core of Gibbs-Duhem for the residual (group) part: the group kernel is homogeneous of degree 0 in the
+   amounts -- scaling every amount by l leaves every coefficient unchanged.  For ANY carrier whose operations satisfy
+   the four identities used (true in a field for l <> 0), and at the reals *)
+Theorem C16_group_kernel_homogeneous : forall A (K : KOps A) (l : A),
+  (forall a b, kmul K a (kmul K l b) = kmul K l (kmul K a b)) ->
+  (forall a b, kmul K l (kadd K a b) = kadd K (kmul K l a) (kmul K l b)) ->
+  kmul K l (kq K 0) = kq K 0 ->
+  (forall a b, kdiv K (kmul K l a) (kmul K l b) = kdiv K a b) ->
+  forall x cgm lc Qs psis cQfs gpsis,
+  group_activity_coefficients K (map (kmul K l) x) cgm lc Qs psis cQfs gpsis =
+  group_activity_coefficients K x cgm lc Qs psis cQfs gpsis.
+Proof. intros A K l H1 H2 H3 H4. exact (gac_homogeneous K l H1 H2 H3 H4). Qed.
+Print Assumptions C16_group_kernel_homogeneous.
+
+Theorem C16_group_kernel_homogeneous_R : forall l x cgm lc Qs psis cQfs gpsis, l <> 0%R ->
+  group_activity_coefficients KR (map (Rmult l) x) cgm lc Qs psis cQfs gpsis =
+  group_activity_coefficients KR x cgm lc Qs psis cQfs gpsis.
+Proof. exact gac_homogeneous_R. Qed.
+Print Assumptions C16_group_kernel_homogeneous_R.
+
+(* full statement (n chemicals, combinatorial x residual), NOT proved for the residual part: it is measured on the
+   real objects by the oracle of props/C16.py with central finite differences along e_a - e_b *)
 Definition C16_gibbs_duhem_statement : Prop :=
   forall (Qs : list R) (psis gpsis : list (list R)) (G : nat) (cs : list chem) (a b : nat),
   a <> b -> (a < length cs)%nat -> (b < length cs)%nat -> length Qs = G ->
@@ -294,6 +361,38 @@ Proof.
     repeat match goal with |- context [ln ?a] =>
       lazymatch a with 1%R => fail | _ => replace a with 1%R by (field; lra) end end.
     rewrite ln_1. field.
+Qed.
+
+(* the hypotheses of C16_pure_limit are met: two chemicals with one group each, rows of chem_Qfractions as __new__
+   computes them, all psis = 1 *)
+Example C16_nonvacuous_pure_limit :
+  let Qs := [1; 2]%R in
+  let cs := [mkChem 1 1 1 [1; 0] (cQ_row Qs [1; 0]) 0; mkChem 0 2 3 [0; 1] (cQ_row Qs [0; 1]) 0]%R in
+  rectangular [[1; 1]; [1; 1]]%R 2 2 /\
+  (forall k, (k < 2)%nat -> 0 <= nth k Qs 0)%R /\
+  (forall m n, (m < 2)%nat -> (n < 2)%nat -> 0 < ent [[1; 1]; [1; 1]]%R m n)%R /\
+  (forall c, In c cs -> length (cg c) = 2%nat /\ (forall k, 0 <= nth k (cg c) 0)%R) /\
+  (forall c, In c cs -> exists k, (k < 2)%nat /\ (0 < nth k Qs 0)%R /\ (0 < nth k (cg c) 0)%R) /\
+  map cQ cs = derive_cQfs KR (map cg cs) Qs /\ pure_at cs 0.
+Proof.
+  cbv zeta. split; [|split; [|split; [|split; [|split; [|split]]]]].
+  - split; [reflexivity|]. intros row [E|[E|[]]]; subst; reflexivity.
+  - intros [|[|k]] Hk; simpl; try lra; lia.
+  - intros [|[|m]] [|[|n]] Hm Hn; unfold ent; simpl; try lra; lia.
+  - intros c [E|[E|[]]]; subst; (split; [reflexivity|]); intros [|[|[|k]]]; simpl; lra.
+  - intros c [E|[E|[]]]; subst; [exists 0%nat|exists 1%nat]; simpl; repeat split; try lia; lra.
+  - reflexivity.
+  - intros [|[|j]] Hj; simpl in *; try reflexivity; lia.
+Qed.
+
+(* a point of the open simplex for C16_gibbs_duhem_comb *)
+Example C16_nonvacuous_gibbs_duhem :
+  let cs := [mkChem (1/2) 1 1 [] [] 0; mkChem (1/4) 3 2 [] [] 0; mkChem (1/4) 2 5 [] [] 0]%R in
+  (forall c, In c cs -> 0 < cx c /\ 0 < cr c /\ 0 < cq c)%R /\ sum_over cs cx = 1%R.
+Proof.
+  cbv zeta. split.
+  - intros c [E|[E|[E|[]]]]; subst; simpl; repeat split; lra.
+  - unfold sum_over, sumR. simpl. lra.
 Qed.
 
 Local Open Scope Q_scope.
